@@ -241,6 +241,118 @@ def unit_dop(clsname, variant, field):
                 config={'class': clsname, 'variant': str(variant), 'field': field})
 
 
+TOPS = 'odl.operator.tensor_ops:'
+
+
+def unit_pointwise_inner(field, op_weighted, k=2):
+    """PointwiseInner / PointwiseInnerAdjoint on a k-fold power of an arbitrary weighted base space whose product-space weights v_j may differ from the
+    operator's own weights w_j (w_j == 1 for op_weighted False: the `is_weighted` shortcut): the real `_call`s give  A F = sum_j w_j F_j conj(G_j)  and
+    (A* h)_j = (w_j / v_j) G_j h, and the integrands of  <A F, h>  and  sum_j v_j <F_j, (A* h)_j>  agree at every grid point (the adjoint identity of the
+    weighted product space); PointwiseInner.adjoint hands domain, vector field and weights to PointwiseInnerAdjoint.  The weights PointwiseInnerAdjoint.__init__
+    derives from the product-space weighting are taken as the fields (assume-guarantee: v_j is what `vfspace.weighting` holds)."""
+    def run(ctx):
+        I = ctx.I
+
+        def path(st):
+            setup(st)
+            fr = ip.Frame(st)
+            X = makers.tspace(I, st, 'X', field)
+            ws = [makers.pos_scalar(st, 'w%d' % j) if op_weighted else 1.0 for j in range(k)]
+            vs = [makers.pos_scalar(st, 'v%d' % j) for j in range(k)]
+
+            class PVec(object):
+                def __init__(self, comps):
+                    self.comps = list(comps)
+
+                def pv_iter(self, I_, fr_):
+                    return iter(list(self.comps))
+
+                def pv_getitem(self, I_, fr_, idx):
+                    return self.comps[idx] if isinstance(idx, slice) else self.comps[int(idx)]
+
+                def pv_len(self, I_, fr_):
+                    return len(self.comps)
+
+                def pv_getattr(self, I_, fr_, name):
+                    raise Unsupported('vector field .%s' % name)
+
+            class PDom(object):
+                def pv_getattr(self, I_, fr_, name):
+                    if name == 'field':
+                        return om.field_obj(I_, field)
+                    raise Unsupported('domain.%s' % name)
+
+                def pv_len(self, I_, fr_):
+                    return k
+            dom = PDom()
+            G = PVec([X.element('G%d' % j) for j in range(k)])
+            F = PVec([X.element('F%d' % j) for j in range(k)])
+            h = X.element('h')
+            G0, F0, h0 = [content(c) for c in G.comps], [content(c) for c in F.comps], content(h)
+            A = ip.Obj(I.get_class(TOPS + 'PointwiseInner'))
+            A.fields.update({'_Operator__domain': dom, '_Operator__range': X.space, '_Operator__is_linear': True, '_vecfield': G,
+                             '_PointwiseInnerBase__weights': list(ws), '_PointwiseInnerBase__is_weighted': bool(op_weighted),
+                             '_PointwiseTensorFieldOperator__base_space': X.space})
+            At = ip.Obj(I.get_class(TOPS + 'PointwiseInnerAdjoint'))
+            At.fields.update({'_Operator__domain': X.space, '_Operator__range': dom, '_Operator__is_linear': True, '_vecfield': G,
+                              '_PointwiseInnerBase__weights': list(ws), '_PointwiseInnerBase__is_weighted': bool(op_weighted),
+                              '_PointwiseInnerAdjoint__ran_weights': list(vs), '_PointwiseTensorFieldOperator__base_space': X.space})
+            made = []
+
+            def ctor(I_, fr_, self, *a, **kw):
+                self.fields['ctor'] = (a, dict(kw))
+                made.append(self)
+            st.cuts[TOPS + 'PointwiseInnerAdjoint.__init__'] = ctor
+            st.cuts.update(oplib.operator_cuts())
+            out = X.element('out_old')
+            outs = PVec([X.element('outs_old%d' % j) for j in range(k)])
+            fA = I.class_entry_value(A.cls, '_call', A.cls.lookup('_call')[1])
+            fAt = I.class_entry_value(At.cls, '_call', At.cls.lookup('_call')[1])
+            try:
+                I.call(fA, [A, F, out], {}, fr)
+                I.call(fAt, [At, h, outs], {}, fr)
+                adj = get(I, fr, A, 'adjoint')
+            except ip.PyRaise as e:
+                return ('raise', e.exc)
+            return ('ok', dict(out=out, outs=outs, adj=adj, A=A, G=G, F=F, h=h, G0=G0, F0=F0, h0=h0, ws=ws, vs=vs, dom=dom, X=X))
+        info = {'field': field, 'operator_weights': 'symbolic' if op_weighted else 'all 1 (is_weighted False)', 'components': k}
+        for st, (status, r) in ctx.explore(path):
+            if status == 'raise':
+                ctx.fail(st, 'no_raise', 'raises %s' % lib.exc_desc(r), info)
+                continue
+            low = st.lower
+            cj = (lambda v: v.conjugate()) if field == 'complex' else (lambda v: v)
+            F0, G0, h0 = [low(v) for v in r['F0']], [low(v) for v in r['G0']], low(r['h0'])
+            ws, vs = r['ws'], r['vs']
+            AF = None
+            for j in range(k):
+                t = F0[j] * cj(G0[j]) * ws[j]
+                AF = t if AF is None else AF + t
+            ctx.prove(st, 'A F == sum_j w_j F_j conj(G_j)  (whatever out held before)', core.sc_eq(low(content(r['out'])), AF), info)
+            lhs = low(content(r['out'])) * cj(h0)
+            rhs = None
+            for j in range(k):
+                Ath_j = low(content(r['outs'].comps[j]))
+                ctx.prove(st, '(A* h)_%d * v_j == w_j G_j h' % j, core.sc_eq(Ath_j * vs[j], G0[j] * h0 * ws[j]), info)
+                t = F0[j] * cj(Ath_j) * vs[j]
+                rhs = t if rhs is None else rhs + t
+            ctx.prove(st, 'adjoint identity, integrand by integrand:  (A F) conj(h) == sum_j v_j F_j conj((A* h)_j)', core.sc_eq(lhs, rhs), info)
+            for j in range(k):
+                ctx.prove(st, 'F_%d, G_%d untouched' % (j, j), core.s_and(core.sbool(core.sc_eq(low(content(r['F'].comps[j])), F0[j])), core.sbool(core.sc_eq(low(content(r['G'].comps[j])), G0[j]))), info)
+            adj = r['adj']
+            ok = isinstance(adj, ip.Obj) and 'ctor' in adj.fields
+            ctx.prove(st, 'PointwiseInner.adjoint is a PointwiseInnerAdjoint', ok and adj.cls.name == 'PointwiseInnerAdjoint', info)
+            if ok:
+                a, kw = adj.fields['ctor']
+                args = dict(zip(('sspace', 'vecfield', 'vfspace', 'weighting'), a))
+                args.update(kw)
+                ctx.prove(st, 'adjoint: same base space, vector field, product space and WEIGHTS of the operator',
+                          args.get('sspace') is r['X'].space and args.get('vecfield') is r['G'] and args.get('vfspace') is r['dom'] and args.get('weighting') is r['A'].fields['_PointwiseInnerBase__weights'], info)
+    return Unit('pointwise-inner/%s/%s' % (field, 'weighted' if op_weighted else 'unit-weights'), run,
+                funcs=[TOPS + 'PointwiseInner._call', TOPS + 'PointwiseInnerAdjoint._call', TOPS + 'PointwiseInner.adjoint'],
+                config={'field': field, 'op_weighted': op_weighted, 'components': k})
+
+
 def unit_canary():
     """must-fail: adjoint of s*A without conjugating s (complex field)"""
     def run(ctx):
@@ -273,6 +385,10 @@ def units(tier, seed):
             us.append(unit_dop(c, v, field))
     for c in ('OperatorLeftVectorMult', 'OperatorRightVectorMult'):
         us.append(unit_mixed(c))
+    for field in ('real', 'complex'):
+        for wtd in (True, False):
+            us.append(unit_pointwise_inner(field, wtd))
+    us.append(unit_pointwise_inner('real', True, k=3))
     us.append(unit_canary())
     return us
 
